@@ -10,6 +10,7 @@ import logging
 import re
 from enum import Enum
 from typing import Any, Set, Type, TypeVar, cast
+from urllib.parse import quote
 
 logger = logging.getLogger(__name__)
 
@@ -361,6 +362,16 @@ def safe_cast(expected_type: Type[T], data: Any) -> T:
     # No validation for now
     # Cast to object first, then to expected_type
     return cast(expected_type, cast(object, data))  # type: ignore[valid-type]
+
+
+def encode_path_value(value: Any) -> str:
+    """Percent-encode a path parameter value so that it occupies exactly one path segment.
+
+    "a/b", "x?y" or "x#y" must not add segments or spill into the query string / fragment, and a value that is
+    itself a dot-segment ("." or "..") must not be removed by URL normalisation (RFC 3986, 5.2.4).
+    """
+    text = quote(str(value), safe="")
+    return text.replace(".", "%2E") if text in (".", "..") else text
 
 
 class DataclassSerializer:
